@@ -190,6 +190,8 @@ def run(ctx):
             via = site.callee.short.split("::")[-1] if getattr(site, "k", None) == "call" and site.callee else "assign"
             if via in ("add_node", "add_edge", "add_edges", "add_nodes", "add_edge_tuple", "add_edge_tuples"):
                 continue  # inherited from the atomic mutators
+            if via in ("deref_mut", "as_mut_slice", "as_mut", "borrow_mut"):
+                continue  # `&mut *vec` / `vec.as_mut_slice()`: only a view of the list, handed on to the operation that writes
             n += 1
             key = "%s|%s|%s" % (b.short, f, via)
             if b.path == add_edge.path:
@@ -354,7 +356,14 @@ def run(ctx):
         # weight <- edge.weight ; exists <- pair lookup
         pn_h = helper.param_names()
         wops = value_operands(fl, pn_h, t, want="f64")
-        wd = panic.norm(fl.describe(wops[0][1], depth=8)) if len(wops) == 1 else ("?", "%d f64 operands" % len(wops))
+        wd = panic.norm(panic.expand_names(fl, panic.norm(fl.describe(wops[0][1], depth=8)))) if len(wops) == 1 else ("?", "%d f64 operands" % len(wops))
+        if len(wops) == 1 and wd[0] == "place" and "." not in wd[1]:
+            # `let weight = edge.weight;` -- a named copy of the field
+            from engines import value_of_named
+
+            v_ = value_of_named(fl, wd[1])
+            if isinstance(v_, tuple):
+                wd = panic.norm(v_)
         ctx.require(len(wops) == 1 and fmt_desc(wd).endswith(".weight") and "edge" in fmt_desc(wd), "R-C03-4", "weight-arg", "the cached weight is the new edge's weight", "the cached weight argument is %s" % fmt_desc(wd), loc_str(t.span))
         ok = False
         for (bn, bop) in value_operands(fl, pn_h, t, want="bool"):
